@@ -201,6 +201,19 @@ check("C03",
       "Lean 4 invariant proof over a symlink file-system model + kernel-checked counter-example + audit-hook exploration of hostile archives",
       "DESIGN.md §4 C03")
 
+check("C02",
+      "Theorems (Lean): kind and permission bits survive the attribute word for every kind and every mode 0..0o7777 "
+      "(kernel-evaluated over the whole table); timestamp envelope: under the IEEE-754 round-to-nearest bounds for the "
+      "magnitudes involved (2^-20 s on sum and quotient, 16 ticks on the product, 2^-22 s on the difference, <1 tick "
+      "truncation) from_datetime->totimestamp is within 5 us for every instant up to 2100 (linear arithmetic over Q; the "
+      "assumed bounds are measured with exact rationals on every run). Tied by the attr stream on real files. The tree "
+      "claim is explored: generated trees (depth<=5, empty dirs, 0-byte files, modes, sub-second mtimes, quantifier names, "
+      "relative links to files/dirs) through writeall/extractall (arcname, dereference, password, cwd/given destination) "
+      "and pack_7zarchive/unpack_7zarchive, compared by lstat/readlink/read. Partial: os.utime granularity, umask and "
+      "float rounding are runtime; no whole-tree theorem.",
+      "Lean 4 proofs (attribute table, rational rounding envelope via linarith) + differential correspondence + tree round-trip exploration",
+      "DESIGN.md §4 C02")
+
 ALL = ["C%02d" % i for i in range(1, 21)]
 REASON_PENDING = "not yet claimed in this revision: model/theorems/correspondence for it are still being built (see DESIGN.md §8.3 staging)"
 
